@@ -673,7 +673,7 @@ def result_api(ctx: Ctx) -> None:
     from pynenc import context
     from pynenc.invocation.status import InvocationStatus as S
 
-    cases = [(how, api, fresh) for how in ("finishes-while-waiting", "finished-before", "finishes-in-the-window", "mixed")
+    cases = [(how, api, fresh) for how in ("finishes-while-waiting", "finished-before", "finishes-in-the-window", "mixed", "finishes-at-record", "finishes-after-final-check")
              for api in ("result", "results") for fresh in (False, True)]
     for kind in ("mem", "sqlite"):
         for ci, (how, api, fresh) in enumerate(cases):
@@ -727,6 +727,26 @@ def result_api(ctx: Ctx) -> None:
                 return real_announce(caller, ids)
 
             o.waiting_for_results = announce  # type: ignore[method-assign]
+            # ... and the same intruder INSIDE the announcement: right before the declaration is recorded / right after the look at the statuses
+            bc = o.blocking_control
+            real_record, real_fbs = bc.waiting_for_results, o.filter_by_status
+            once = {"done": False}
+
+            def record(caller, ids):  # type: ignore[no-untyped-def]
+                if how == "finishes-at-record" and caller == parent.invocation_id and not once["done"]:
+                    once["done"] = True
+                    finish(ids[-1])
+                return real_record(caller, ids)
+
+            def fbs(ids, flt):  # type: ignore[no-untyped-def]
+                r = real_fbs(ids, flt)
+                if how == "finishes-after-final-check" and not once["done"] and ids:
+                    once["done"] = True
+                    finish(list(ids)[-1])
+                return r
+
+            bc.waiting_for_results = record  # type: ignore[method-assign]
+            o.filter_by_status = fbs  # type: ignore[method-assign]
             if how in ("finished-before", "mixed"):
                 finish(kids[0].invocation_id)
             if how == "finished-before":
@@ -744,6 +764,8 @@ def result_api(ctx: Ctx) -> None:
                 got = [f"raised {type(e).__name__}: {e}"]
             finally:
                 o.waiting_for_results = real_announce  # type: ignore[method-assign]
+                bc.waiting_for_results = real_record  # type: ignore[method-assign]
+                o.filter_by_status = real_fbs  # type: ignore[method-assign]
                 context.swap_dist_invocation_context(app.app_id, prev)
             ctx.count()
             ctx.distinct(("result-api", kind, how, api, fresh))
